@@ -283,6 +283,9 @@ class _Py:
             raise CanonError("name " + n.id)
         if isinstance(n, ast.BinOp) and isinstance(n.op, ast.Add):
             return ["cat", self.expr(n.left), self.expr(n.right)]
+        if isinstance(n, ast.BoolOp) and isinstance(n.op, ast.Or) and len(n.values) == 2 and \
+                isinstance(n.values[1], ast.Constant) and n.values[1].value == "":
+            return self.expr(n.values[0])           # `block() or ''`
         if isinstance(n, ast.Attribute) and _src(n) == "loop.index":
             return "loopindex"
         if isinstance(n, ast.Call):
